@@ -567,23 +567,72 @@ Qed.
 (* the answer to a predict call is a function of the CURRENT trees and floor only - whatever happened before *)
 Lemma session_answer s ops r :
   run s (ops ++ [OPredict r]) =
-  (fst (run s ops), snd (run s ops) ++ [predict r (fst (fst (run s ops))) (snd (fst (run s ops)))]).
+  (fst (run s ops), snd (run s ops) ++ [predict r (st_minv (fst (run s ops))) (st_trees (fst (run s ops)))]).
 Proof. rewrite run_app. destruct (run s ops) as [s1 o1]. cbn. reflexivity. Qed.
 
 Lemma session_history_independent s s' ops ops' r :
-  fst (run s ops) = fst (run s' ops') ->
+  st_minv (fst (run s ops)) = st_minv (fst (run s' ops')) ->
+  st_trees (fst (run s ops)) = st_trees (fst (run s' ops')) ->
   last (snd (run s (ops ++ [OPredict r]))) [] = last (snd (run s' (ops' ++ [OPredict r]))) [].
-Proof. intros H. rewrite !session_answer. cbn [snd]. rewrite !last_last, H. reflexivity. Qed.
+Proof. intros H1 H2. rewrite !session_answer. cbn [snd]. rewrite !last_last, H1, H2. reflexivity. Qed.
 
 (* predict does not change the state; asking twice gives the same answer twice *)
 Lemma session_predict_pure s r1 r2 :
-  run s [OPredict r1; OPredict r2] = (s, [predict r1 (fst s) (snd s); predict r2 (fst s) (snd s)]).
+  run s [OPredict r1; OPredict r2] = (s, [predict r1 (st_minv s) (st_trees s); predict r2 (st_minv s) (st_trees s)]).
 Proof. reflexivity. Qed.
 
 (* a warm start is a forest over the old trees followed by the new ones *)
 Lemma session_warm s extra r :
-  snd (run s [OWarm extra; OPredict r]) = [predict r (fst s) (snd s ++ extra)].
+  snd (run s [OWarm extra; OPredict r]) = [predict r (st_minv s) (st_trees s ++ extra)].
 Proof. reflexivity. Qed.
+
+(* the hyper-parameter n_estimators never enters a prediction: two sessions that differ only in it (initially, or by
+   set_params(n_estimators=...) calls placed anywhere) give the same answers *)
+Definition same_fitted (s s' : state) : Prop := st_minv s = st_minv s' /\ st_trees s = st_trees s'.
+
+Fixpoint strip_nest (ops : list op) : list op :=
+  match ops with
+  | [] => []
+  | OSetNEst _ :: r => strip_nest r
+  | o :: r => o :: strip_nest r
+  end.
+
+Lemma step_same_fitted s s' o : same_fitted s s' ->
+  same_fitted (fst (step s o)) (fst (step s' o)) /\ snd (step s o) = snd (step s' o).
+Proof.
+  intros [H1 H2]. destruct s as [[mv n] ts], s' as [[mv' n'] ts']. unfold st_minv, st_trees in H1, H2. cbn in H1, H2. subst mv' ts'.
+  destruct o; cbn; repeat split; reflexivity.
+Qed.
+
+Lemma run_cons s o r :
+  run s (o :: r) = (fst (run (fst (step s o)) r), snd (step s o) ++ snd (run (fst (step s o)) r)).
+Proof. cbn [run]. destruct (step s o) as [s1 o1]. cbn [fst snd]. destruct (run s1 r) as [s2 o2]. reflexivity. Qed.
+
+Lemma run_same_fitted ops : forall s s', same_fitted s s' ->
+  same_fitted (fst (run s ops)) (fst (run s' (strip_nest ops))) /\ snd (run s ops) = snd (run s' (strip_nest ops)).
+Proof.
+  induction ops as [|o r IH]; intros s s' H; [split; [exact H|reflexivity]|].
+  assert (Hgen : forall o', strip_nest (o' :: r) = o' :: strip_nest r ->
+            same_fitted (fst (run s (o' :: r))) (fst (run s' (strip_nest (o' :: r)))) /\
+            snd (run s (o' :: r)) = snd (run s' (strip_nest (o' :: r)))).
+  { intros o' E. rewrite E, !run_cons. cbn [fst snd].
+    destruct (step_same_fitted s s' o' H) as [Hs Ho]. destruct (IH _ _ Hs) as [Hs2 Ho2].
+    split; [exact Hs2| rewrite Ho, Ho2; reflexivity]. }
+  destruct o as [r0|ts0|extra|mv|ts0|ts0|n|i|extra]; try (apply Hgen; reflexivity).
+  (* OSetNEst: dropped on the right-hand side *)
+  rewrite run_cons. cbn [strip_nest step fst snd app].
+  apply IH. destruct H as [H1 H2]. split; cbn; assumption.
+Qed.
+
+Lemma session_n_estimators_irrelevant s n ops :
+  snd (run s ops) = snd (run (st_minv s, n, st_trees s) (strip_nest ops)).
+Proof. apply run_same_fitted. split; reflexivity. Qed.
+
+(* hand edits of estimators_: the answers are those of the trees actually present *)
+Lemma session_drop_merge s i extra r :
+  snd (run s [ODrop i; OSetNEst 0; OPredict r]) = [predict r (st_minv s) (drop_nth i (st_trees s))] /\
+  snd (run s [OMerge extra; OPredict r]) = [predict r (st_minv s) (st_trees s ++ extra)].
+Proof. split; reflexivity. Qed.
 
 (* pooling: statistics of the extended forest from those of the two parts - the law of total variance once more,
    with the two groups of trees in the role of the trees *)
